@@ -30,10 +30,12 @@ def run(pid, tier):
         o.traces += len(lines[bi:bi + 120000])
         for (ln, ev) in parse_bad(rr.out):
             oc = ev.get('outcls') or []
-            sym = 'nonfinite-output' if any(c in ('pinf', 'ninf', 'nan') for c in oc) else None
-            o.finding(kind='compose', symptom=sym, op=ev.get('op'), fam=ev.get('fam'), ft=ev.get('ft'), res=str(ev.get('res'))[:60], matched=ev.get('matched'),
+            sym = 'nonfinite-output' if any(c in ('pinf', 'ninf', 'nan') for c in oc) else ('exact-zero-component' if ev.get('zeros') else None)
+            a64 = ev.get('alpha64') or []
+            all_small = bool(a64) and all(k <= 6 for k in a64)
+            o.finding(kind='compose', symptom=sym, all_small=all_small, op=ev.get('op'), fam=ev.get('fam'), ft=ev.get('ft'), res=str(ev.get('res'))[:60], matched=ev.get('matched'),
                       show=ev.get('show'), params=ev.get('params') or ev.get('alpha'), stream=ev.get('stream'), event={k: v for k, v in ev.items() if k not in ('out', 'sb', 'gn')},
-                      signature='compose:%s:%s:%s:%s' % (ev.get('op'), ev.get('fam'), ev.get('ft'), ev.get('matched')))
+                      signature='compose:%s:%s:%s:%s:%s' % (ev.get('op'), ev.get('fam'), ev.get('ft'), ev.get('matched'), sym))
     matched = {}
     for x in lines:
         e = json.loads(x)
@@ -64,7 +66,7 @@ def run(pid, tier):
     if pid == 'C01':
         o.assumptions = [
             'ziggurat part (StandardNormal, Exp1): tables against the structural equations (ZigTables.tla) and executions against the ZIGNOR automaton (TraceZig.tla: layer, sign, word count, result region, tail sign), exactly as for C06',
-            'inverse-CDF samplers (Cauchy, Pareto, Weibull, Gumbel, Frechet, Triangular): the LAW is decided at the anchors of spec/QuantileTable.tla (48 dyadic parameter points x 9 probabilities '
+            'inverse-CDF samplers (Cauchy, Pareto, Weibull, Gumbel, Frechet, Triangular): the LAW is decided at the anchors of spec/QuantileTable.tla (52 dyadic parameter points x 9 probabilities '
             '2^-20 .. 1-2^-20 x f32/f64) as an exact ticket count against the documented CDF bracketed at x(1 -/+ 2^-20), resolution two steps of the uniform draw; the table itself is mpmath output '
             '(tools/gen_quantile_table.py, 60 digits) whose order/median sanity TLC checks; f64 counts rest on monotonicity inside each half of the word range, checked on ~150 sorted words per half',
             'Beta<f32> (Cheng BB and BC, both parameter orders, both sides of min(a,b) = 1): the LAW is decided as an exact ticket count over the 2^24 x 2^24 lattice of proposal and acceptance word '
